@@ -152,6 +152,63 @@ def fillAll (ops : Ops HSt Skel Value) : Store Value → HSt → List HItem → 
   | st, s, [] => (st, s)
   | st, s, x :: xs => fillAll ops (ops.act st s (.fill x)).1 (ops.act st s (.fill x)).2.1 xs
 
+/-- the fine footprint of an invocation: the objects the state refers to, the objects passed, and the objects
+the invocation creates (own namespace, serial from the current allocation counter on) — *not* the objects the
+branch created earlier and no longer refers to, such as contexts it has yielded -/
+def footF (ns ctr : Nat) (refs cells : List Tok) (t : Tok) : Prop := t ∈ refs ∨ t ∈ cells ∨ (t.1 = ns ∧ ctr ≤ t.2)
+
+/-- **Locality with the fine footprint**: like `Local`, but an invocation neither reads nor writes objects of
+its own namespace that it allocated earlier and does not refer to any more -/
+structure LocalF (ops : Ops σ S C) (ns : Nat) (ctr : σ → Nat) : Prop where
+  refs_sub : ∀ st s (r : Req S) t,
+    (t ∈ ops.refs (ops.act st s r).2.1 ∨ t ∈ cellsOf (ops.act st s r).2.2.outs) → footF ns (ctr s) (ops.refs s) r.cells t
+  frame : ∀ st s (r : Req S) t, ¬ footF ns (ctr s) (ops.refs s) r.cells t → (ops.act st s r).1 t = st t
+  det : ∀ st₁ st₂ s (r : Req S), (∀ t, footF ns (ctr s) (ops.refs s) r.cells t → st₁ t = st₂ t) →
+    (ops.act st₁ s r).2 = (ops.act st₂ s r).2 ∧
+    ∀ t, footF ns (ctr s) (ops.refs s) r.cells t → (ops.act st₁ s r).1 t = (ops.act st₂ s r).1 t
+
+/-! ## downstream updates -/
+
+/-- allocation discipline of a state: the objects of the own namespace it refers to have been allocated -/
+def RefsBelow (ops : Ops σ S C) (ns : Nat) (ctr : σ → Nat) (s : σ) : Prop :=
+  ∀ t ∈ ops.refs s, t.1 = ns → t.2 < ctr s
+
+/-- an accumulator that keeps its books: it refers only to allocated objects, and **it does not keep a reference to
+anything it yields** -/
+structure Tidy (ops : Ops σ S C) (ns : Nat) (ctr : σ → Nat) : Prop where
+  below : ∀ st s (r : Req S), r.isAcc = true → RefsBelow ops ns ctr s → (∀ t ∈ r.cells, t.1 = ns → t.2 < ctr s) →
+    RefsBelow ops ns ctr (ops.act st s r).2.1
+  nokeep : ∀ st s (r : Req S), r.isAcc = true → RefsBelow ops ns ctr s → (∀ t ∈ r.cells, t.1 = ns → t.2 < ctr s) →
+    ∀ t ∈ cellsOf (ops.act st s r).2.2.outs, t ∉ ops.refs (ops.act st s r).2.1
+
+/-- a history as seen from downstream: every invocation with its response and the contents of the objects of the
+yielded values right after it -/
+def runHistS (ops : Ops σ S C) : Store C → σ → List (HOp σ S C) → List (Req S × Resp S × List C)
+  | _, _, [] => []
+  | st, s, .ext f :: h => runHistS ops (f st) s h
+  | st, s, .upd g :: h => runHistS ops st (g s) h
+  | st, s, .req r :: h =>
+    let a := ops.act st s r
+    (r, a.2.2, (cellsOf a.2.2.outs).map a.1) :: runHistS ops a.1 a.2.1 h
+
+/-- the same history without what the rest of the program does to the heap -/
+def stripExt : List (HOp σ S C) → List (HOp σ S C)
+  | [] => []
+  | .ext _ :: h => stripExt h
+  | op :: h => op :: stripExt h
+
+/-- the `ext` steps of the history are *downstream in-place updates*: each changes only objects of values yielded
+before it (`Y`); the values filled exist, and are not values yielded before (refilling an updated result would of
+course change what follows); `upd` steps (`reset()`) allocate nothing and add no reference -/
+def Downstream (ops : Ops σ S C) (ns : Nat) (ctr : σ → Nat) : Store C → σ → List Tok → List (HOp σ S C) → Prop
+  | _, _, _, [] => True
+  | st, s, Y, .req r :: h =>
+    r.isAcc = true ∧ (∀ t ∈ r.cells, (t.1 = ns → t.2 < ctr s) ∧ t ∉ Y) ∧
+      Downstream ops ns ctr (ops.act st s r).1 (ops.act st s r).2.1 (Y ++ cellsOf (ops.act st s r).2.2.outs) h
+  | st, s, Y, .ext f :: h => (∀ st' t, t ∉ Y → f st' t = st' t) ∧ Downstream ops ns ctr (f st) s Y h
+  | st, s, Y, .upd g :: h =>
+    (ctr (g s) = ctr s ∧ ∀ t ∈ ops.refs (g s), t ∈ ops.refs s) ∧ Downstream ops ns ctr st (g s) Y h
+
 /-! ## executable forms (for the driver) -/
 
 instance (a b : List Tok) : Decidable (Disj a b) :=
